@@ -170,7 +170,9 @@ class FileRoundTrip(Relation):
     describe = ('whole generated files (2-agent via Generator_ha_sm_hr.create_instance, 3-agent via '
                 'Generator_spa.create_instance) loaded by import_model with -twopl: ranks of the first student\'s list '
                 '(first side) and of the first hospital/lecturer\'s list (second side) against the dense ranks of the '
-                'decisions; exhaustive over decision vectors up to the bound; non-trivial = a decision set')
+                'decisions; exhaustive over decision vectors up to the bound; plus instances with more than 1000 / 1024 / 10000 '
+                '(thorough: 4096 / 65536 / 100000) agents on the tested side whose lists hold ids just above those bases; '
+                'non-trivial = a decision set')
 
     def cases(self, ctx):
         rng = ctx.rng(self.name)
@@ -180,6 +182,20 @@ class FileRoundTrip(Relation):
                 for agents in (2, 3):
                     for side in (1, 2):
                         yield dict(l=_perm(rng, n), ties=list(v), agents=agents, side=side)
+        # large agent counts: the tested list holds ids just above a power of ten / two (base + k) while the small id k
+        # is ranked by the NEXT agent of that side, so that any id arithmetic which is only injective for small ids shows
+        bases = [1000, 1024, 10000] + ([4096, 65536, 100000] if ctx.thorough else [])
+        for base in bases:
+            for n in (3, 4):
+                for v in _vectors(n):
+                    if n == 4 and not ctx.thorough and rng.random() < 0.6:
+                        continue
+                    ks = rng.sample(range(1, 7), 2)
+                    l = [base + ks[0], base + ks[1]] + rng.sample(range(7, 40), n - 2)
+                    rng.shuffle(l)
+                    for agents in (2, 3):
+                        for side in (1, 2):
+                            yield dict(l=l, ties=list(v), agents=agents, side=side, big=base + 40)
 
     def observe(self, inp):
         from matchingproblems.generator.generator_ha_sm_hr import Generator_ha_sm_hr
@@ -189,6 +205,44 @@ class FileRoundTrip(Relation):
         l, ties, n = inp['l'], inp['ties'], len(inp['l'])
         plain = [False] * n
         ident = list(range(1, n + 1))
+        def fbig():
+            # side 2: N first-side agents, 2 second-side agents; agent 1 of the second side ranks l, agent 2 everybody
+            # else; side 1: 2 first-side agents, N second-side agents; agent 1 ranks l, agent 2 everybody else
+            N = inp['big']
+            others = [x for x in range(1, N + 1) if x not in l]
+            if inp['side'] == 2:
+                n1, n2 = N, 2
+                inl = set(l)
+                first = [[1] if s in inl else [2] for s in range(1, N + 1)]
+                first_t = [[False]] * N
+                second, second_t = [list(l), others], [list(ties), [False] * len(others)]
+            else:
+                n1, n2 = 2, N
+                first, first_t = [list(l), others], [list(ties), [False] * len(others)]
+                pos = {}
+                for x in l:
+                    pos[x] = [1]
+                second = [pos.get(h, [2]) for h in range(1, N + 1)]
+                second_t = [[False]] * N
+            if inp['agents'] == 2:
+                text = Generator_ha_sm_hr().create_instance(n1, n2, first, first_t, second, second_t,
+                                                            [0] * n2, [N] * n2, 'info\n')
+            else:
+                text = Generator_spa().create_instance(n1, n2, n2, first, first_t, list(range(1, n2 + 1)), [0] * n2, [N] * n2,
+                                                       second, second_t, [0] * n2, [N] * n2, [N] * n2, 'info\n')
+            from matchingproblems.solver.solver import Solver
+            with impl.tmpfile(text) as path:
+                m = Solver(['-f', path, '-na', str(inp['agents']), '-twopl']).model
+            if inp['side'] == 1:
+                return [[p.projectID, p.rank_student] for p in m.pairs[0]]
+            out = []
+            for s in l:
+                pr = [p for p in m.pairs[s - 1] if p.lecturerID == 1][0]
+                out.append([s, pr.rank_lecturer])
+            return out
+        if inp.get('big'):
+            return C.observe(fbig)
+
         def f():
             first = [list(l) if inp['side'] == 1 else list(ident) for _ in range(n)]
             first_t = [list(ties) if inp['side'] == 1 else plain for _ in range(n)]
@@ -227,7 +281,7 @@ class FileRoundTrip(Relation):
         return any(inp['ties'][:-1])
 
     def stats(self, inp, obs):
-        return {'agents=%d side=%d' % (inp['agents'], inp['side']): 1}
+        return {'agents=%d side=%d' % (inp['agents'], inp['side']): 1, 'large-ids': 1 if inp.get('big') else 0}
 
     def what(self, inp, obs):
         return ('ranks after loading a generated %d-agent file differ from the tie decisions on side %d: list %r decisions %r'
